@@ -105,3 +105,15 @@ claim("C09",
       "correspondence; boundary borders of the first/last data row of a page belong to C07.",
       "Rocq proof (list arithmetic on broadcast / slice / re-base) + direct-rule differential check per cell",
       "DESIGN.md section 6 C09, section 5 K3")
+claim("C07",
+      "Theorems (Coq, unbounded): on every page the closing style (rtf_body.border_last before a break, "
+      "rtf_page.border_last at the end) lands on every cell of the last data row, or on the table-rendered "
+      "footnote/source shown there (source first); the first data row's top gets rtf_page.border_first on a first page "
+      "without rendered header and rtf_body.border_first at every other page start; update_cell changes exactly one cell "
+      "of the broadcast grid. Against the implementation: border styles of the first/last table row of the document and "
+      "of every page read back from the output, over all border choices x header modes x footnote/source "
+      "(table/paragraph/absent) x placements x strategies.",
+      "Known finding C07-border-top-override (per-column border_top replaces border_first on page-first rows) is reported "
+      "as KNOWN-FINDING and witnessed by C07_refuted_border_top_override; header-row top border is checked differentially only.",
+      "Rocq proof (case analysis of the page processor + matrix update lemmas) + differential check on boundary rows",
+      "DESIGN.md section 6 C07")
